@@ -176,4 +176,6 @@ class GPO(Algorithm):
         -------
 
         """
+        if len(self.V_x) == 0:  # no point validated yet: the current learner's last proposal
+            return self.goodx
         return self.V_x[np.argmax(np.array(self.V_reward))]
